@@ -913,7 +913,18 @@ def check_read_until_full(ctx, rep, fs, fa):
                 ok = done(S)
                 rep.ob('C11.R8', fs, 'loop-exit-only-at-eof-or-full', ok, '' if ok else 'the read loop is left towards deserialize without a 0-byte read or a full buffer: %s' % show_facts(S))
     rep.count_floor('C11.R8', 'exits of the read loop towards deserialize', n, 1)
-
+    # the fill count starts at zero: the first read goes to the start of the buffer and buf[..count] is exactly what was read
+    accs = 0
+    for l, ds in fa.defs().items():
+        dvs = [fa.def_value(l, bb, kk) for (bb, kk, part) in ds]
+        steps = [d for d in dvs if isinstance(d, tuple) and d and d[0] == 'bin' and d[1] in ('Add', 'AddWithOverflow') and mentions_read(fa, d)]
+        if not steps or len(dvs) < 2:
+            continue
+        accs += 1
+        inits = [d for d in dvs if d not in steps]
+        ok0 = bool(inits) and all(is_const(d, 0) for d in inits)
+        rep.ob('C11.R8', fs, 'fill-count-starts-at-zero', ok0, 'the running total of bytes read is initialised with %s' % [shape(d)[:20] for d in inits])
+    rep.count_floor('C11.R8', 'running totals of bytes read', accs, 1)
 
 def check_take_form(ctx, rep, fs, fa):
     """the other bounded inflate: `ZlibDecoder::new(..).take(MAX_DECOMPRESSED_SIZE).read_to_end(&mut vec)`; the limit sits on the
